@@ -116,6 +116,15 @@ Theorem C01_all_cells : forall q bl s l nh, beval q bl s l (BAllCells nh) = true
   length l = nh /\ Forall (fun t => strip t <> []) l.
 Proof. exact all_cells_meaning. Qed.
 Print Assumptions C01_all_cells.
+Theorem C01_mod_component : forall q bl AND s l na i k r,
+  eval q bl AND (CMod na i k r) s l = (s, true) <->
+  exists t z, cell l i = Some t /\ parse_int t = Some z /\ (if na then ~ (r < z mod k) else z mod k = r).
+Proof. exact mod_component_meaning. Qed.
+Print Assumptions C01_mod_component.
+Theorem C01_mod_blank_cell : forall q bl AND s l na i k r, (forall t, cell l i = Some t -> is_blank_text t = true) ->
+  snd (eval q bl AND (CMod na i k r) s l) = false.
+Proof. exact mod_component_blank. Qed.
+Print Assumptions C01_mod_blank_cell.
 Theorem C01_numeric_cells : forall bl s l o i j,
   floatable (nvalue bl s l (NHdr i)) = true -> floatable (nvalue bl s l (NHdr j)) = true ->
   beval clean bl s l (BCmp o (NHdr i) (NHdr j)) = cmp_num clean o (fst (neval bl s l (NHdr i))) (fst (neval bl s l (NHdr j))).
